@@ -51,6 +51,8 @@ pub struct Ctx {
     pub cur_regime: String,
     pub cur_case: u64,
     pub max_samples: usize,
+    /// a probe context: violations are counted, not printed (see `Ctx::absorb`)
+    pub quiet: bool,
 }
 
 impl Ctx {
@@ -76,7 +78,30 @@ impl Ctx {
             cur_regime: String::new(),
             cur_case: 0,
             max_samples: 0,
+            quiet: false,
         }
+    }
+    /// take over what a (clean) probe context observed
+    pub fn absorb(&mut self, probe: Ctx) {
+        for (k, v) in probe.counters {
+            if k.starts_with("max_") {
+                let e = self.counters.entry(k).or_insert(0);
+                if v > *e {
+                    *e = v;
+                }
+            } else {
+                *self.counters.entry(k).or_insert(0) += v;
+            }
+        }
+        for (k, v) in probe.sets {
+            let s = self.sets.entry(k).or_default();
+            for x in v {
+                if s.len() < 400 {
+                    s.insert(x);
+                }
+            }
+        }
+        self.distinct.extend(probe.distinct);
     }
     pub fn count(&mut self, k: &str, by: u64) {
         *self.counters.entry(k.to_string()).or_insert(0) += by;
@@ -114,7 +139,7 @@ impl Ctx {
         let per_sub = self.viol_by_sub.entry(sub.to_string()).or_insert(0);
         *per_sub += 1;
         // print at most 3 events per sub-check (all are counted), 300 in total
-        if *per_sub <= 3 && self.viol_by_sub.len() <= 100 {
+        if !self.quiet && *per_sub <= 3 && self.viol_by_sub.len() <= 100 {
             let ev = json!({
                 "t": "violation", "prop": self.prop, "sub": sub, "sig": sig,
                 "regime": self.cur_regime, "case": self.cur_case, "seed": self.seed,
